@@ -15,6 +15,7 @@ package main
 import (
 	"fmt"
 	"os"
+	"strconv"
 	"time"
 
 	"verif/harness/schedrv"
@@ -283,13 +284,27 @@ func randomRun(rng *vlib.Rand, cfg schedrv.Config, g genCfg) *schedrv.Run {
 func report(c *vlib.Ctx, name string, r *schedrv.Run, what string) {
 	c.Eval()
 	rp := replay{Name: name, Cfg: r.Cfg, Decisions: r.Decisions}
+	// one failure per run: the first oracle that fails (the later ones are its consequences
+	// and are appended to the description); a scheduler failure (watchdog, yield mismatch)
+	// only when no oracle explains the run
+	var kinds []string
+	var descs []string
+	for _, v := range r.Oracles() {
+		kinds = append(kinds, v.Kind)
+		descs = append(descs, v.Desc)
+		c.Count("oracle:" + v.Kind)
+	}
 	for _, f := range r.Failures {
-		c.Fail(name+":"+f.Kind, fmt.Sprintf("%s [%s]: %s; schedule %s", name, what, f.Desc, schedrv.DecisionsSig(r.Decisions)), rp)
+		kinds = append(kinds, f.Kind)
+		descs = append(descs, f.Desc)
 		c.Count("failure:" + f.Kind)
 	}
-	for _, v := range r.Oracles() {
-		c.Fail(name+":"+v.Kind, fmt.Sprintf("%s [%s]: %s; schedule %s", name, what, v.Desc, schedrv.DecisionsSig(r.Decisions)), rp)
-		c.Count("oracle:" + v.Kind)
+	if len(kinds) > 0 {
+		desc := fmt.Sprintf("%s [%s]: %s", name, what, descs[0])
+		if len(kinds) > 1 {
+			desc += fmt.Sprintf(" (also: %v)", kinds[1:])
+		}
+		c.Fail(name+":"+kinds[0], desc+"; schedule "+schedrv.DecisionsSig(r.Decisions), rp)
 	}
 	if !r.Aborted {
 		c.Case("trace", r.CoqCase(), rp)
@@ -363,6 +378,20 @@ func main() {
 			panic(err)
 		}
 		rp.Cfg.V = v
+		if n, _ := strconv.Atoi(os.Getenv("C08_REPEAT")); n > 0 {
+			// stress a replay: how often does it fail?
+			bad := 0
+			for i := 0; i < n; i++ {
+				r := schedrv.NewRun(rp.Cfg)
+				r.Replay(rp.Decisions)
+				r.Finish()
+				if len(r.Failures) > 0 || len(r.Oracles()) > 0 {
+					bad++
+					fmt.Printf("repeat %d: %v %v\n", i, r.Failures, r.Oracles())
+				}
+			}
+			fmt.Printf("repeat: %d of %d runs failed\n", bad, n)
+		}
 		r := schedrv.NewRun(rp.Cfg)
 		r.Replay(rp.Decisions)
 		r.Finish()
